@@ -10,7 +10,7 @@ import vlib
 
 FINISH = dict(level='proof', technique='Coq theorems about the executable ECDH / ElligatorSwift model (Properties_C18.v: exact failure set and masking of ecdh and xdh, decode returns an on-curve point, structure of the inverse map and of the encoding search) + differential correspondence of the model with the C implementation built from the working tree (byte-identical encodings: same PRNG draws, same branch, same u)',
               trusted=TRUSTED_COMMON + ['the algebraic identities of the ElligatorSwift map (decode total, inverse sound) need p prime and field reasoning: NOT proved; the model carries the corresponding run-time checks (#-96 on failure) and the round trip is checked on every generated case',
-                                        'symmetry of the shared secret (both roles) needs the group law: checked on the implementation outputs of every generated pair, not proved'])
+                                        'ecdh_symmetric is stated under the explicit premise MathFacts P (group law); symmetry of the x-only ElligatorSwift exchange additionally needs square-root uniqueness and the round trip of the map: checked on the implementation outputs of every generated pair, not proved'])
 
 def runners(chk):
     impl = vlib.build_impl(chk.dir, name='impl')
@@ -150,12 +150,29 @@ def expected(chk, cases, meta, ri):
                 if a0 != a or not a.startswith('#1 '): bad(l0 + ' ;; ' + line, cls, a0 + ' / ' + a, 'both roles must succeed and derive the same secret')
             else: pairs[m['pair']] = (line, a)
 
+def asan_pass(chk, cases, ri, label):
+    """thorough tier: the same lines on a clang ASan+UBSan build must give the same result lines (a sanitizer
+    report aborts the driver and shows up as CRASH lines)"""
+    import os
+    try:
+        exe = vlib.build_impl(chk.dir, name='impl_asan', cc='clang', opt='-O1', flags=['-fsanitize=address,undefined', '-fno-sanitize-recover=undefined', '-g'])
+    except vlib.BuildError as e:
+        chk.notes.append('ASan build not available: ' + str(e)[-200:]); return
+    os.environ.setdefault('ASAN_OPTIONS', 'detect_leaks=0')
+    out = vlib.run_cases(exe, [c[0] for c in cases], (), 16)
+    bad = [(c, a, b) for c, a, b in zip(cases, ri, out) if a != b]
+    chk.notes.append('%s: ASan/UBSan build, %d cases, %d differ from the plain build' % (label, len(cases), len(bad)))
+    for (line, cls), a, b in bad[:5]:
+        if len(chk.violations) < 20:
+            chk.violations.append({'kind': 'correspondence', 'class': 'asan_' + cls, 'case': line, 'impl': 'ASan build: ' + b[:600], 'model': 'plain build: ' + a[:300]})
+
 def run(chk):
     impl, model, ie, me = runners(chk)
     chk.coq()
     g1 = Gen(chk); stage1(chk, g1)
     ri, rm = chk.correspond(impl, model, 'ecdh + ellswift, stage 1')
     expected(chk, chk.cases[g1.base:], g1.meta, ri)
+    if not chk.quick(): asan_pass(chk, chk.cases[g1.base:], ri, 'stage 1')
     chk.extra['model_check_failures'] = sum(1 for x in rm if x.startswith('#-96'))
     g2 = Gen(chk); stage2(chk, g1, ri, g2)
     ri2, rm2 = chk.correspond(impl, model, 'ellswift stage 2 (decode of produced encodings, both roles)', cases=chk.cases[g2.base:])
